@@ -265,6 +265,8 @@ MUTANTS = [
     m("C19-no-raise", "C19", "C19.R1", A, "                client.server,\n            )\n            raise\n", "                client.server,\n            )\n"),
     m("C19-no-hasher-reset", "C19", "C19.R2", A, "        for key in old_clients:\n            try:\n                self.hasher.remove_node(key)\n            except ValueError:\n                # already out of rotation (evicted as dead)\n                pass\n", ""),
     m("C19-wrong-token", "C19", "C19.R5", A, 'end_tokens=b"\\n\\r\\nEND\\r\\n",', 'end_tokens=b"\\r\\nEND\\r\\n",'),
+    m("C19-error-handler-reads-socket", "C19", "C19.R1", A, "                client.server,\n            )\n            raise\n", "                client.sock.getpeername(),\n            )\n            raise\n"),
+    m("C19-error-handler-returns-empty", "C19", "C19.R1", A, "                client.server,\n            )\n            raise\n", "                client.server,\n            )\n            return []\n"),
     # ---------------- C20
     m("C20-ge-250", "C20", "C20.R1", B, "    if len(key) > 250:", "    if len(key) >= 250:"),
     m("C20-len-before-prefix", "C20", "C20.R1", B, "    key = key_prefix + key\n    parts = key.split()\n\n    if len(key) > 250:", "    too_long = len(key) > 250\n    key = key_prefix + key\n    parts = key.split()\n\n    if too_long:"),
